@@ -22,7 +22,6 @@ import (
 	"sync/atomic"
 	"time"
 
-	"github.com/bytom/bytom/protocol/bc"
 	"github.com/bytom/bytom/protocol/bc/types"
 	cl "verifharness/chainlib"
 )
@@ -55,17 +54,17 @@ type Worker struct {
 }
 
 type Scenario struct {
-	ID       int                 `json:"id"`
-	Stream   string              `json:"stream"`
-	Seed     uint64              `json:"seed"`
-	Trunk    int                 `json:"trunk"`
-	Branches map[string]int      `json:"branches"` // "A" -> number of blocks above the trunk
-	BlockTxs map[string][]int    `json:"blocktxs,omitempty"`
-	Txs      []TxSpec            `json:"txs,omitempty"`
-	Setup    []Event             `json:"setup"`
-	Workers  []Worker            `json:"workers"`
-	SampleMs int                 `json:"sample_ms"` // goroutine-dump sampling period during the concurrent phase (0: none)
-	Expect   string              `json:"expect"`    // harness-side expectation, for statistics only
+	ID       int              `json:"id"`
+	Stream   string           `json:"stream"`
+	Seed     uint64           `json:"seed"`
+	Trunk    int              `json:"trunk"`
+	Branches map[string]int   `json:"branches"` // "A" -> number of blocks above the trunk
+	BlockTxs map[string][]int `json:"blocktxs,omitempty"`
+	Txs      []TxSpec         `json:"txs,omitempty"`
+	Setup    []Event          `json:"setup"`
+	Workers  []Worker         `json:"workers"`
+	SampleMs int              `json:"sample_ms"` // goroutine-dump sampling period during the concurrent phase (0: none)
+	Expect   string           `json:"expect"`    // harness-side expectation, for statistics only
 }
 
 // one goroutine of the node or of the harness, as seen in a dump
@@ -78,17 +77,17 @@ type GPos struct {
 }
 
 type Result struct {
-	ID        int        `json:"id"`
-	Outcome   string     `json:"outcome"` // completed | stuck | setup-stuck
-	Class     string     `json:"class,omitempty"`
-	Calls     int        `json:"calls"`     // calls that returned
-	Pending   int        `json:"pending"`   // calls that never returned
-	Errors    int        `json:"errors"`    // calls that returned an error
-	Stuck     []GPos     `json:"stuck,omitempty"`
-	Dump      string     `json:"dump,omitempty"` // the relevant goroutines of the final dump, verbatim
-	Samples   [][]GPos   `json:"samples,omitempty"`
-	Info      string     `json:"info,omitempty"`
-	ElapsedMs int64      `json:"ms"`
+	ID        int      `json:"id"`
+	Outcome   string   `json:"outcome"` // completed | stuck | setup-stuck
+	Class     string   `json:"class,omitempty"`
+	Calls     int      `json:"calls"`   // calls that returned
+	Pending   int      `json:"pending"` // calls that never returned
+	Errors    int      `json:"errors"`  // calls that returned an error
+	Stuck     []GPos   `json:"stuck,omitempty"`
+	Dump      string   `json:"dump,omitempty"` // the relevant goroutines of the final dump, verbatim
+	Samples   [][]GPos `json:"samples,omitempty"`
+	Info      string   `json:"info,omitempty"`
+	ElapsedMs int64    `json:"ms"`
 }
 
 // ---------------------------------------------------------------- world
@@ -439,10 +438,15 @@ func sameStuck(a, b []GPos) bool {
 	return true
 }
 
-// allBlocked: every tracked goroutine that still exists is in a blocked state.
+// allBlocked: every tracked goroutine that still exists is in a blocked state, and is blocked AT an
+// operation of the two modelled packages (not somewhere below an opaque call such as a LevelDB
+// write stalled by a compaction, whose progress depends on goroutines that are not tracked).
 func allBlocked(ps []GPos) bool {
 	for _, p := range ps {
 		if !blockedStates[p.State] {
+			return false
+		}
+		if p.Path != "" && !p.Leaf {
 			return false
 		}
 	}
@@ -621,6 +625,5 @@ func runScenario(sc *Scenario, scratch string) *Result {
 	// let the casper background loop drain before the process exits (race detector sees its accesses)
 	time.Sleep(150 * time.Millisecond)
 	res.Outcome = "completed"
-	_ = bc.Hash{}
 	return finish()
 }
